@@ -4,10 +4,11 @@ from __future__ import annotations
 import contextlib
 import io
 
+import numpy as np
 import z3
 
 from .. import core, gx, harness, shim
-from ..core import SymReal, sym
+from ..core import SymReal, sym, sand
 from . import c07
 
 P = gx.P
@@ -332,8 +333,122 @@ def run_outputs(unit):
             yield log.result()
 
 
+# ---- the directive path: 'Units:<output>, <unit>' lines -> Outputs.read_parameters -> the conversion pass before printing ----------------------
+DIRECTIVES = [('reserv', 'Trock', 'degF'), ('economics', 'Cexpl', 'KUSD'), ('surfaceplant', 'NetElectricityProduced', 'kW'), ('economics', 'cost_one_injection_well', 'KUSD')]
+# inputs written in another unit than the one they are held in (values with more digits than any display rounding keeps)
+ECHOED = [('wellbores', 'prodwelldiam', 'Production Well Diameter', 'meter', 0.244475), ('wellbores', 'injwelldiam', 'Injection Well Diameter', 'centimeter', 26.9875)]
+
+
+def run_directive_path(unit):
+    """a real, fully calculated Model; the real Outputs.read_parameters is given 'Units:' directive lines (with and without other, unrelated
+    lines present) and the real Outputs._convert_units runs: every directed output must show value x exact factor under the requested label,
+    every other output is untouched; an input that was read in another unit is echoed with a (value, unit) denoting what the user wrote."""
+    from . import c09
+    from geophires_x import Outputs as O
+    kind, L, T, K, x = c09.CONFIGS['quick'][0]
+    cfgm = c09.params_for(kind, L, T, K, x)
+    cfgm['extra'] = dict(cfgm.get('extra', {}), **{name: f'{val!r} {u}' for _, _, name, u, val in ECHOED})
+    for with_console_line in (False, True):
+        cfg = {'harness': 'directive-path', 'other lines present': ['Print Output to Console'] if with_console_line else []}
+        log = harness.UnitLog(cfg)
+        zv = {}
+
+        def drive(symbolic, with_console_line=with_console_line):
+            m = c09.prepared(cfgm).reset()
+            for kx in [kx for kx, vx in m.outputs.ParameterDict.items() if not gx.is_param(vx)]:
+                del m.outputs.ParameterDict[kx]       # directives registered by an earlier path of this exploration (the dictionary is not part of the snapshot)
+            before, given = {}, {}
+            entries = {}
+            if with_console_line:
+                entries['Print Output to Console'] = P.ParameterEntry(Name='Print Output to Console', sValue='0', raw_entry='Print Output to Console, 0')
+            for j, (comp, attr, u) in enumerate(DIRECTIVES):
+                op = getattr(getattr(m, comp), attr)
+                if symbolic:
+                    v = op.value
+                    op.value = core.as_symarray([sym(f'x{j}[{i}]') for i in range(len(v))]) if hasattr(v, '__len__') else sym(f'x{j}')
+                before[(comp, attr)] = (op.value, op.CurrentUnits)
+                okey = next((k_ for k_, v_ in getattr(m, comp).OutputParameterDict.items() if v_ is op), op.Name)     # directives address the dictionary key
+                key = 'Units:' + okey
+                entries[key] = P.ParameterEntry(Name=key, sValue=u, raw_entry=f'{key}, {u}')
+            # inputs that the model read in another unit when it was built (what the report echoes)
+            for j, (comp, attr, name, u, val) in enumerate(ECHOED):
+                given[(comp, attr)] = (val, u)
+            m.InputParameters = entries
+            untouched = {(cn, k): (op.value, op.CurrentUnits) for cn in ('reserv', 'wellbores', 'surfaceplant', 'economics')
+                         for k, op in getattr(m, cn).OutputParameterDict.items() if not any(op is getattr(getattr(m, c_), a_) for c_, a_, _ in DIRECTIVES)}
+            with shim.shadow(*(list(c07.param_shadows()) + [(O, 'np', shim.NP)])), contextlib.redirect_stdout(io.StringIO()):
+                m.outputs.read_parameters(m)
+                m.outputs._convert_units(m)
+            return m, before, given, untouched
+
+        def facts(m, before, given, untouched):
+            out = []
+            for (comp, attr, u) in DIRECTIVES:
+                op = getattr(getattr(m, comp), attr)
+                v0, cu0 = before[(comp, attr)]
+                try:
+                    want = pint_convert(v0, cu0.value, u)
+                    vals_now, vals_want = (list(op.value), list(want)) if hasattr(v0, '__len__') else ([op.value], [want])
+                    ok = sand(*[core.near(a, b, 1e-9) for a, b in zip(vals_now, vals_want)]) if len(vals_now) == len(vals_want) else False
+                except Exception:
+                    ok = False
+                out.append((f'directive "Units:{op.Name}, {u}": the displayed value is the stored value times the exact conversion factor', ok))
+                out.append((f'directive "Units:{op.Name}, {u}": the label becomes the requested unit', getattr(op.CurrentUnits, 'value', None) == u))
+            changed = []
+            for (cn, k), (v, cu) in untouched.items():
+                now = getattr(m, cn).OutputParameterDict[k]
+                if now.value is v or _same(now.value, v):
+                    continue
+                try:      # shown in its preferred unit instead: must denote the same quantity
+                    back = pint_convert(now.value, now.CurrentUnits.value, cu.value)
+                    if not all(abs(float(a) - float(b)) <= 1e-9 * (1 + abs(float(b))) for a, b in zip(np.ravel(back), np.ravel(v))):
+                        changed.append(k)
+                except Exception:
+                    changed.append(k)
+            out.append(('outputs without a directive still denote the quantity that was computed', not changed))
+            for (comp, attr, name, u, _) in ECHOED:
+                prm = getattr(getattr(m, comp), attr)
+                val, _u = given[(comp, attr)]
+                cu = prm.CurrentUnits.value if hasattr(prm.CurrentUnits, 'value') else str(prm.CurrentUnits)
+                try:
+                    den = pint_convert(prm.value, cu, u)
+                    ok = core.near(den, val, 1e-9)
+                except Exception:
+                    ok = False
+                out.append((f'"{name}" given in {u}: after the conversion pass the echoed (value, unit) denotes the quantity the user wrote (to the precision it was written with)', ok))
+            return out
+
+        def concrete(inp, only=None):
+            m, before, given, untouched = drive(False)
+            bad = [n for n, ok in facts(m, before, given, untouched) if not ok and (only is None or n == only)]
+            return bool(bad), {'failed': bad[:4], 'echo': {name: (float(getattr(getattr(m, c_), a_).value), str(getattr(getattr(m, c_), a_).CurrentUnits)) for c_, a_, name, _, _ in ECHOED}}
+        k = 0
+        for pr in core.explore(lambda: drive(True), max_paths=200, catch=(RuntimeError, ValueError)):
+            log.path(pr)
+            k += 1
+            if pr.error is not None:
+                if core.check_sat(pr.ctx.all_constraints(), 2000)[0] != 'sat':
+                    continue          # a rejection branch that the linear abstraction could not exclude but the solver can
+                raise pr.error
+            if pr.aborted:
+                continue
+            harness.reachable(log, pr.ctx, 1000)
+            for name, ok in facts(*pr.value):
+                harness.discharge(log, pr.ctx, name, ok, zv, lambda inp, name=name: concrete(inp, only=name), sample=(k == 1 and 'exact conversion' in name))
+        yield log.result()
+
+
+def _same(a, b):
+    try:
+        if hasattr(a, '__len__') and hasattr(b, '__len__'):
+            return len(a) == len(b) and all(x is y or x == y for x, y in zip(a, b))
+        return a is b or bool(a == b)
+    except Exception:
+        return a is b
+
+
 def units(tier, seed):
-    us = []
+    us = [{'harness': 'directive-path'}]
     srcs = list(gx.SOURCE_CLASSES) + [('hip_ra_x.hip_ra_x', 'HIP_RA_X')]
     if tier == 'quick':
         keep = {'Reservoir', 'TDPReservoir', 'CylindricalReservoir', 'SBTReservoir', 'WellBores', 'SBTWellbores', 'SurfacePlant', 'SurfacePlantAGS', 'SurfacePlantDistrictHeating',
@@ -347,7 +462,9 @@ def units(tier, seed):
 
 
 def run_unit(unit):
-    if unit['harness'] == 'inputs':
+    if unit['harness'] == 'directive-path':
+        yield from run_directive_path(unit)
+    elif unit['harness'] == 'inputs':
         yield from run_inputs(unit)
     else:
         yield from run_outputs(unit)
